@@ -130,6 +130,9 @@ func (p poly) leading() *big.Rat {
 
 // symMul multiplies and then simplifies sqrt(P)·sqrt(P) → P and inv(P)·inv-free factors.
 func symMul(a, b poly) poly {
+	if polyHasNaN(a) || polyHasNaN(b) {
+		return polyVar("NaN") // NaN·0 is NaN, not 0
+	}
 	out := a.mul(b)
 	// sqrt(P)^2 → P
 	for changed := true; changed; {
@@ -493,6 +496,9 @@ func symMath(name string, args []poly) (poly, bool) {
 }
 
 func symBinop(op token.Token, a, b poly) (poly, bool) {
+	if polyHasNaN(a) || polyHasNaN(b) {
+		return polyVar("NaN"), true
+	}
 	switch op {
 	case token.ADD:
 		return a.add(b, 1), true
@@ -501,6 +507,11 @@ func symBinop(op token.Token, a, b poly) (poly, bool) {
 	case token.MUL:
 		return symCancel(symMul(a, b)), true
 	case token.QUO:
+		if len(b) == 0 && len(a) == 0 {
+			// 0/0 with both operands identically zero (a degenerate input whose coordinates share
+			// their symbols): not a number, which every comparison answers false to
+			return polyVar("NaN"), true
+		}
 		return symDiv(a, b)
 	}
 	return nil, false
